@@ -56,7 +56,7 @@ func (s *Stats) Case(h uint64) {
 	if s == nil {
 		return
 	}
-	if len(s.Distinct) < 4_000_000 {
+	if len(s.Distinct) < 1_500_000 {
 		s.Distinct[h] = struct{}{}
 	} else {
 		s.Counters["distinct_set_saturated"]++
@@ -68,7 +68,7 @@ func (s *Stats) Print(h uint64) {
 	if s == nil {
 		return
 	}
-	if len(s.Prints) < 4_000_000 {
+	if len(s.Prints) < 1_000_000 {
 		s.Prints[h] = struct{}{}
 	}
 }
